@@ -81,7 +81,7 @@ def output_value(value: CSSValue, out: OutputStream, config: Config):
         # Handle edge case: a field is written close to previous token like this: `foo${bar}`.
         # We should not add delimiter here
 
-        if i != 0 and (not isinstance(token, tokens.Field) or token.start != prev_end):
+        if i != 0 and (not isinstance(token, tokens.Field) or token.start is None or token.start != prev_end):
             out.push(' ')
 
         output_token(token, out, config)
